@@ -355,7 +355,7 @@ func eventsDiffer(a, b *job.Event) bool {
 
 func runC08(tier string, seed uint64) int {
 	rp := newReport("C08", tier, seed)
-	nGen, nCorpus, K := 16, 16, 12
+	nGen, nCorpus, K := 120, 16, 10
 	if tier == "thorough" {
 		nGen, nCorpus, K = 1500, 1000000, 24
 	}
